@@ -242,7 +242,7 @@ func genC14(rt *rapid.T) c14Case {
 	}
 	if rapid.IntRange(0, 2).Draw(rt, "withprev") == 0 {
 		for i, n := 0, rapid.IntRange(1, 2).Draw(rt, "nprev"); i < n; i++ {
-			c.Prev = append(c.Prev, world.PrevSession{Hold: pick[uint16](rt, "prevhold", 0, 3, 30, 180), End: pick(rt, "prevend", "fin", "cease", "cease+junk"), In: rapid.IntRange(0, 2).Draw(rt, "previn") == 0})
+			c.Prev = append(c.Prev, world.PrevSession{Hold: pick[uint16](rt, "prevhold", 0, 3, 30, 180), End: pick(rt, "prevend", "fin", "cease", "cease+junk", "handler-cease"), In: rapid.IntRange(0, 2).Draw(rt, "previn") == 0})
 		}
 	}
 	c.Shared = rapid.IntRange(0, 2).Draw(rt, "shared") == 0
@@ -253,5 +253,7 @@ func TestC14(t *testing.T) {
 	r := hx.Start(t, "C14")
 	defer r.Finish(t)
 	hx.Rapid(r, t, "open_encoder", r.N(40000, 400000), genC14, c14EncoderProp)
+	// several OPENs built at the same time, as the FSM goroutines of several peers do
+	hx.Rapid(r, t, "concurrent_encoders", r.N(300, 3000), genConc(genC14, 2, 6, 40), concProp(c14EncoderProp))
 	hx.Rapid(r, t, "open_on_wire", r.N(6000, 60000), genC14, c14WireProp(t, r))
 }
